@@ -6,7 +6,7 @@ repo = sys.argv[1] if len(sys.argv) > 1 else '/repo'
 base = json.load(open('/root/.vp/BASELINE.json'))
 fd, xmlp = tempfile.mkstemp(suffix='.xml'); os.close(fd)
 env = dict(os.environ); env.pop('SLIMTA_VERIF', None)
-p = subprocess.run(['/venv/bin/python', '-m', 'pytest', '-ra', '-q', '-p', 'no:cacheprovider', '--timeout=900',
+p = subprocess.run(['/venv/bin/python', '-m', 'pytest', '-ra', '-q', '-p', 'no:cacheprovider', '--timeout=' + os.environ.get('BASELINE_TEST_TIMEOUT', '900'),
                     '--continue-on-collection-errors', '--junitxml=' + xmlp], cwd=repo, env=env,
                    stdout=subprocess.PIPE, stderr=subprocess.STDOUT)
 passed = set()
